@@ -362,6 +362,14 @@ ares_status_t ares_array_claim_at(void *dest, size_t dest_size,
   }
 
   arr->cnt--;
+
+  /* An empty array has no use for a gap at the front.  Leaving it in place
+   * means an array emptied from the front all the way to its allocation size
+   * (offset == alloc_cnt) rejects every later insert, as there is no valid
+   * index left to move from. */
+  if (arr->cnt == 0) {
+    arr->offset = 0;
+  }
   return ARES_SUCCESS;
 }
 
